@@ -282,10 +282,64 @@ def rule_scanner_indent(ctx, rep):
                          'more make indented code / paragraph text)' % (st.short, why), loc(model.unit_of(st), st.node))
 
 
+def rule_table_delimiter(ctx, rep):
+    """A table is recognised only if its second line is a delimiter row, the whole line: every path of
+    Table.read (abstract lines) that returns a table must have decided a regex test on the second line, and
+    the lines that test accepts (bounded or not, as applied) must all be delimiter rows of the GFM grammar."""
+    from . import c13
+    model = ctx.model
+    rule = 'R-TABLE-DELIM'
+    rep.rule(rule, 'Table.read accepts a second line only if the whole line is a delimiter row (language inclusion)')
+    tb = model.cls('block_token.Table')
+    rd = tb.lookup('read')[1]
+    rep.instance(rule)
+    tests = {}
+    n = 0
+    untested = 0
+    for trace, (kind, r, nested, w) in c13.explore_reader(model, tb, nlines=3):
+        if kind != 'ret' or r is None:
+            continue
+        n += 1
+        mine = []
+        for k, v in trace:
+            kk = k[1] if isinstance(k, tuple) and len(k) == 2 and k[0] == 'cond' else k
+            if isinstance(kk, tuple) and len(kk) == 4 and kk[0] == 'match' and v is True and c13.line_index(kk[3]) == 1 \
+                    and _is_whole_line(kk[3]):
+                mine.append((kk[1], kk[2]))
+        if not mine:
+            untested += 1
+        for t in mine:
+            tests[t] = tests.get(t, 0) + 1
+    if n == 0:
+        raise AnalysisError('Table.read has no path that returns a table')
+    ok = untested == 0
+    rep.obligation(rule, ok, {'paths returning a table': n, 'without a test of the second line': untested})
+    if not ok:
+        rep.find(rule, rd.short, 'second-line-untested', 'Table.read can return a table without having matched its second line '
+                 'against a delimiter-row pattern', loc(model.unit_of(rd), rd.node))
+    A = rx.ALPHABET_CORE
+    S = rx.Lang(blockstart.SPEC['TableDelimiterRow'], mode='full', alphabet=A, name='spec:TableDelimiterRow')
+    for (method, pattern), cnt in sorted(tests.items()):
+        L = rx.Lang(pattern, 0, mode='full' if method == 'fullmatch' else 'match', alphabet=A, name='Table.read second line')
+        w = rx.witness([L, rx.line_lang(A)], [S], A)
+        rep.obligation(rule, w is None, {'test': '%s(%r)' % (method, pattern), 'paths': cnt, 'witness': w})
+        if w is not None:
+            rep.find(rule, rd.short, 'over-accepts:%s' % method,
+                     'Table.read accepts the second line %r as a delimiter row (%s of %r), which is not one in the GFM grammar: '
+                     'a paragraph whose second line merely begins like a delimiter row becomes a table and loses that line'
+                     % (w, method, pattern), loc(model.unit_of(rd), rd.node), witness='item | qty\n' + w)
+
+
+def _is_whole_line(frozen):
+    """The frozen subject of a match is an input line itself (not a slice or a stripped copy)."""
+    return isinstance(frozen, tuple) and len(frozen) == 3 and frozen[0] == 'src'
+
+
 def run(ctx):
     rep = ctx.report
     model = ctx.model
     rule_scanner_indent(ctx, rep)
+    rule_table_delimiter(ctx, rep)
     rep.rule('R-START-INCL', 'L_match(block pattern) intersect filter is included in the spec language (automata)')
     rep.rule('R-START-ANCHOR', 'block starts apply their pattern with .match')
     rep.rule('R-START-ONLY-IF', 'start returns truthy only if its pattern matched')
